@@ -24,7 +24,8 @@ pub fn underlying_description(text: &str) -> Option<String> {
 
 /// Re-layout a text: line ends and tabs.
 pub fn relayout(t: &mut Tape, s: &str) -> (String, &'static str) {
-    match t.weighted(&[3, 2, 1, 1, 1, 1]) {
+    match t.weighted(&[3, 2, 1, 1, 1, 1, 1]) {
+        6 => (format!("{}{s}", ["\n", "\n\n", "\r\n\n", "  \n\t\n", "\n \n\n"][t.index(5)]), "leading-blank-lines"),
         0 => (s.to_string(), "as-is"),
         1 => (s.replace("\r\n", "\n").replace('\n', "\r\n"), "crlf"),
         2 => {
@@ -59,9 +60,9 @@ pub fn check_text(s: &str, ctx: &mut Ctx, layout: &str, origin: &str) -> Result<
     }
     let r = match catch(|| TemplateProgram::new(s).map(|_| ())) {
         Ok(r) => r,
-        Err(_) => {
-            ctx.exclude("panic (reported by C06)");
-            return Ok(());
+        Err(p) => {
+            // no message at all: the compiler panicked instead of reporting the error
+            return Err(Failure::new(format!("panic:{}", crate::run::panic_site(&p)), format!("compilation panicked instead of returning an error message: {p}\n--- input ({layout}) ---\n{}", truncate(s, 1200))).with(json!({"input": s, "layout": layout})));
         }
     };
     let Err(msg) = r else {
